@@ -513,7 +513,7 @@ CALL_ALIASES = {
     'fmax': 'max', 'fmin': 'min',
     'xrange': 'range',
 }
-IDENTITY_CALLS = {'np.asarray', 'float'}
+IDENTITY_CALLS = {'np.asarray', 'float', 'np.float64', 'numpy.float64', 'np.double'}
 # symmetric-call table: fname -> list of argument permutations under which the call is invariant
 # (filled by rules after the symmetry of the callee has been established)
 SYMMETRIC_CALLS: Dict[str, List[Tuple[int, ...]]] = {}
